@@ -448,7 +448,8 @@ func cmacOneBlock(k, m []byte) []byte {
 }
 
 // Independent computes prefix || iv || ciphertext || tag with the standard
-// library only.  ok=false: no stdlib reference exists (AES-GCM-SIV).
+// library only (AES-GCM-SIV: the naive RFC 8452 transcription of sivref.go over
+// stdlib AES).  ok=false: no reference (wrong IV length).
 func (s *Spec) Independent(iv, pt, ad []byte) (ct []byte, ok bool) {
 	if len(iv) != s.IVLen() {
 		return nil, false
@@ -469,6 +470,8 @@ func (s *Spec) Independent(iv, pt, ad []byte) (ct []byte, ok bool) {
 	switch s.Scheme {
 	case "gcm":
 		return stdGCM(s.Key).Seal(out, iv, pt, ad), true
+	case "siv":
+		return append(append([]byte{}, s.Prefix()...), SIVRef(s.Key, iv, pt, ad)...), true
 	case "chacha":
 		a, _ := xcc.New(s.Key)
 		return a.Seal(out, iv, pt, ad), true
